@@ -2,6 +2,7 @@ import ElvisVerif.Props.C03Release
 import ElvisVerif.Props.C01Full
 import ElvisVerif.Lemmas.TcpRelOrder
 import ElvisVerif.Lemmas.TcpRelData
+import ElvisVerif.Lemmas.TcpRelData2
 import ElvisVerif.Props.C03FinData
 /-!
 # C03 — release after both applications close, from ANY reachable state of the closed system (closes after quiescence)
@@ -218,5 +219,102 @@ example : ∃ sys0 s : Sys, ∃ rs, ∃ ta tb : Tcb,
   · simp at key
 
 example : closeDataCheck = true := by decide
+
+/-- **Close with ANY amount of data queued** (`_partial`: steady starting states with a quiet peer; fair loss-free
+    schedule).  As `c03_close_with_data_queued_partial`, but: A's retransmission queue may hold data B has received and
+    acknowledged by a pure ACK still waiting on B's one-shot queue (the steady states a fair exchange passes through), and
+    A's unsent text is only bounded by `65535·n` bytes for some `n` (H31 apart).  After `close A` the closer **keeps
+    segmentizing in FIN-WAIT-1**: in every exchange phase it cuts exactly what the window admits — the segments its
+    ESTABLISHED twin would cut (`Tcb.segments_twin_more`) — and processes B's pure ACKs exactly as in ESTABLISHED
+    (`is_fin_acked` is false while `fin_pending`, `Tcb.ackList_twin`), so the close-free twin system, for which all
+    invariants of C01's convergence proof hold, can be run alongside (`phase_twin`); after at most `2n − 1` such phases the
+    window admits all the remaining text: it leaves followed by the FIN, numbered behind the last text byte; B reaches
+    CLOSE-WAIT holding **everything A submitted**; one more phase: B's ACKs take A to FIN-WAIT-2 (`phase_final`); further
+    phases change nothing (`rest_phase`).  `closeDataFrontN n` = `close A`, `2n + 1` exchange phases.  When B's
+    application then closes (`releaseTail`) both TCBs are deleted (B's by A's ACK of its FIN, A's by the TIME-WAIT
+    timeout, `2·MSL + 1` ms after it received B's FIN) and both streams are complete and exact. -/
+theorem c03_close_with_any_data_queued_partial (ia ib : Seq) (ma mb : U16) (simultaneous : Bool) (sys0 s : Sys)
+    (rs : List Res) (hma : SPACE_FOR_HEADERS ≤ ma.toNat) (hmb : SPACE_FOR_HEADERS ≤ mb.toNat)
+    (h0 : Sys.run {} [.open .A ia ma, if simultaneous then .open .B ib mb else .listen .B ib mb] = .ok (sys0, rs))
+    (hrun : PlainRun sys0 s) (h31 : RoomH s) (ta tb : Tcb) (hs : Steady s ta tb)
+    (oa : ta.outgoing.oneshot = []) (qb : tb.outgoing.retransmit = []) (tbt : tb.outgoing.text = [])
+    (hne : ta.outgoing.text ≠ []) (n : Nat) (hlen : ta.outgoing.text.length ≤ 65535 * n) :
+    ∃ s1 ta1 tb1 s2, closeDataFrontN n s = .ok s1 ∧ FinRun s s1 ∧ s1.a.tcb = some ta1 ∧ s1.b.tcb = some tb1 ∧
+      ta1.state = .FinWait2 ∧ tb1.state = .CloseWait ∧ RestX .A ta1 tb1 ∧ RestX .B tb1 ta1 ∧
+      s1.b.delivered = s1.a.submitted ∧ s1.a.submitted = s.a.submitted ∧
+      releaseTail s1 = .ok s2 ∧ closeDataRoundN n s = .ok s2 ∧ FinRun s s2 ∧ s2.a.tcb = none ∧ s2.b.tcb = none ∧
+      s2.b.delivered = s2.a.submitted ∧ s2.a.delivered = s2.b.submitted ∧
+      s2.a.submitted = s.a.submitted ∧ s2.b.submitted = s.b.submitted := by
+  have hg := good_of_reach ia ib ma mb simultaneous sys0 s rs hma hmb h0 hrun h31
+  obtain ⟨s1, ta1, tb1, s2, e1, r1, h1a, h1b, sa, sb, ca, cb, u1, u2, u3, e12, e2, r2, na, nb, v1, v2, v3, v4⟩ :=
+    close_data_any n s hg ta tb hs ⟨oa, tbt, qb⟩ hne hlen
+  have hfr : FinRun sys0 s1 := (FinRun.of_plain hrun).trans r1
+  have hlt : C01.Lt31 s1 := by
+    have := h31.lt31
+    exact ⟨by show (s1.side .A).submitted.length < _; rw [u1]; exact this.1,
+      by show (s1.side .B).submitted.length < _; rw [u2]; exact this.2⟩
+  have hfin := (C03.c03_fin_after_data ia ib ma mb simultaneous sys0 s1 ⟨rs, h0⟩ hfr hlt .B tb1 h1b (by rw [sb]; rfl)).1
+  rw [cb.buf, List.append_nil] at hfin
+  have hdB : (s1.side .B).delivered = (s1.side .A).submitted := hfin
+  have hdA : (s.side .A).delivered = (s.side .B).submitted :=
+    steady_stream hg .B tb ta hs.hb hs.ha hs.b hs.a tbt
+  exact ⟨s1, ta1, tb1, s2, e1, r1, h1a, h1b, sa, sb, ca, cb, hdB, u1, e2, e12, r1.trans r2, na, nb,
+    by show (s2.side .B).delivered = (s2.side .A).submitted; rw [v4, hdB, u1, v1],
+    by show (s2.side .A).delivered = (s2.side .B).submitted; rw [v3, hdA, v2], v1, v2⟩
+
+/-- handshake completed; A has sent [1, 2, 3] (history element 3), B has received and read them, its ACK still waits on
+    its one-shot queue, A's retransmission queue still holds the segment; A's application has written [4, 5] -/
+def dataOps2 : List Op :=
+  [.emit .A, .deliver .B 0, .emit .B, .deliver .A 1, .emit .A, .deliver .B 2, .write .A [1, 2, 3], .emit .A,
+   .deliver .B 3, .read .B, .write .A [4, 5]]
+
+def closeDataCheck2 : Bool :=
+  match Sys.run {} [.open .A 1000 1500, .listen .B 5000 1500] with
+  | .ok (sys0, _) =>
+    match plainRunB sys0 dataOps2 with
+    | some s =>
+      decide (s.a.submitted.length + 2 < 2147483648) && decide (s.b.submitted.length + 2 < 2147483648) &&
+      (match s.a.tcb, s.b.tcb with
+        | some ta, some tb => steadyXB ta tb && steadyXB tb ta && ta.outgoing.oneshot.isEmpty &&
+            tb.outgoing.retransmit.isEmpty && tb.outgoing.text.isEmpty && ta.outgoing.text == [4, 5] &&
+            ta.outgoing.retransmit.length == 1 && tb.outgoing.oneshot.length == 1
+        | _, _ => false) &&
+      (match closeDataFrontN 1 s with
+        | .ok s1 =>
+          (match s1.a.tcb, s1.b.tcb with
+            | some ta1, some tb1 => ta1.state == .FinWait2 && tb1.state == .CloseWait
+            | _, _ => false) && s1.b.delivered == [1, 2, 3, 4, 5] &&
+          (match releaseTail s1 with
+            | .ok s2 => s2.a.tcb.isNone && s2.b.tcb.isNone && s2.b.delivered == [1, 2, 3, 4, 5] && s2.a.delivered == []
+            | .error _ => false)
+        | .error _ => false)
+    | none => false
+  | .error _ => false
+
+/-- the hypotheses of `c03_close_with_any_data_queued_partial` hold in that reachable state (`n = 1`; A's retransmission
+    queue and B's one-shot queue are NOT empty), and the schedule, evaluated, ends as promised -/
+example : ∃ sys0 s : Sys, ∃ rs, ∃ ta tb : Tcb,
+    Sys.run {} [.open .A 1000 1500, if false then .open .B 5000 1500 else .listen .B 5000 1500] = .ok (sys0, rs) ∧
+    PlainRun sys0 s ∧ RoomH s ∧ Steady s ta tb ∧ ta.outgoing.oneshot = [] ∧ tb.outgoing.retransmit = [] ∧
+    tb.outgoing.text = [] ∧ ta.outgoing.text ≠ [] ∧ ta.outgoing.text.length ≤ 65535 * 1 ∧
+    ta.outgoing.retransmit.length = 1 ∧ tb.outgoing.oneshot.length = 1 := by
+  have key : closeDataCheck2 = true := by decide
+  unfold closeDataCheck2 at key
+  split at key
+  · rename_i sys0 rs e0
+    split at key
+    · rename_i s e1
+      simp only [Bool.and_eq_true, decide_eq_true_eq] at key
+      obtain ⟨⟨⟨r1, r2⟩, k1⟩, _⟩ := key
+      split at k1
+      · rename_i ta tb hta htb
+        simp only [Bool.and_eq_true, List.isEmpty_iff, beq_iff_eq] at k1
+        obtain ⟨⟨⟨⟨⟨⟨⟨x1, x2⟩, x3⟩, x4⟩, x5⟩, x6⟩, x7⟩, x8⟩ := k1
+        exact ⟨sys0, s, rs, ta, tb, e0, plainRunB_sound _ _ _ e1, ⟨r1, r2⟩,
+          ⟨hta, htb, steadyXB_sound _ _ x1, steadyXB_sound _ _ x2⟩, x3, x4, x5, by rw [x6]; simp,
+          by rw [x6]; decide, x7, x8⟩
+      · simp at k1
+    · simp at key
+  · simp at key
 
 end Elvis.Tcp
